@@ -60,6 +60,8 @@ class time_guard:
 
     def __enter__(self):
         import signal
+        self._t0 = time.time()
+        self._prev = signal.getitimer(signal.ITIMER_REAL)  # an enclosing guard, if any
         self._old = signal.signal(signal.SIGALRM, self._fire)
         # repeating: a timeout raised where exceptions are swallowed (inside an audit hook, a __del__) fires again a second later
         signal.setitimer(signal.ITIMER_REAL, self.seconds, 1.0)
@@ -68,6 +70,8 @@ class time_guard:
         import signal
         signal.setitimer(signal.ITIMER_REAL, 0)
         signal.signal(signal.SIGALRM, self._old)
+        if self._prev[0] > 0:  # re-arm the enclosing guard with what is left of its budget
+            signal.setitimer(signal.ITIMER_REAL, max(self._prev[0] - (time.time() - self._t0), 0.05), self._prev[1] or 1.0)
         return False
 
 
@@ -135,6 +139,9 @@ def hyp_settings(n, tier, shrink=True):
     )
 
 
+CASE_TIMEOUT = int(os.environ.get('TV_CASE_TIMEOUT', '120'))
+
+
 def campaign(strategy, check, n, seed, stats: Stats, tier='quick', shrink=None, max_findings=1):
     """Run `check(case, stats)` over `n` cases drawn from `strategy`.
 
@@ -151,7 +158,11 @@ def campaign(strategy, check, n, seed, stats: Stats, tier='quick', shrink=None, 
     @given(strategy)
     def _t(case):
         try:
-            check(case, stats)
+            with time_guard(CASE_TIMEOUT):
+                check(case, stats)
+        except CaseTimeout:  # a wall-clock budget hit is inconclusive, never a verdict (and never a hang of the check)
+            stats.classes['timeout_inconclusive'] += 1
+            stats.notes.append('case exceeded %ds (inconclusive): %s' % (CASE_TIMEOUT, json.dumps(case, default=str)[:200]))
         except Violation as v:
             if v.case is None:
                 v.case = case
